@@ -606,3 +606,27 @@ def _m_skip_affinity(mod):
         return False
 
     return mod if replace_in_func(mod, "Model.variable_metadata_function", edit) else None
+
+
+@SPEC.mutant("sparsify with a tolerance", MODEL, "R13.13", "takes no tolerance")
+def _m_sparsify_tol(mod):
+    def edit(fn):
+        for c in ast.walk(fn):
+            if isinstance(c, ast.Call) and norm(c.func) == "ca.sparsify" and len(c.args) == 1:
+                c.args.append(ast.Constant(value=1e-10))
+                return True
+        return False
+
+    return mod if replace_in_func(mod, "Model.variable_metadata_function", edit) else None
+
+
+@SPEC.mutant("Hessian evaluated at the origin", MODEL, "R13.12", "symbolic derivative")
+def _m_hessian_at_zero(mod):
+    def edit(fn):
+        for c in ast.walk(fn):
+            if isinstance(c, ast.Call) and isinstance(c.func, ast.Attribute) and c.func.attr == "is_zero" and "jacobian" in norm(c.func.value):
+                c.func.value = ast.parse("ca.Function('H', [in_var], [%s])(0)" % norm(c.func.value), mode="eval").body
+                return True
+        return False
+
+    return mod if replace_in_func(mod, "Model.variable_metadata_function", edit) else None
